@@ -358,7 +358,11 @@ def run_case(case):
 
 def model_cases(ctx, cfg):
     dot = os.path.join(ctx.work, "c10.dot")
-    ctx.model("MC_TaxonNamespace", cfg, extra=("-dump", "dot,actionlabels", dot))
+    # -coverage 1 on the (small) replay model: every action of the specification must have been taken, else the
+    # transitions replayed into the code would silently omit an operation (vacuity gate, recorded in the evidence)
+    ctx.model("MC_TaxonNamespace", cfg, extra=("-dump", "dot,actionlabels", dot), coverage=True,
+              require_actions=("CreateTaxon", "NewTaxon", "AddTaxon", "AddTaxa2", "RemoveTaxon", "QueryBitmask", "RequireTaxon",
+                               "RemoveLabel", "ClearAll", "ReverseOrder", "Reorder", "Relabel", "SetCase", "SetMutable", "CopyNs"))
     inits, edges, states = tlaval.read_dot(dot)
     paths, root = tlaval.shortest_paths(inits, edges)
     cases = []
